@@ -137,7 +137,7 @@ int main(int argc, char** argv) {
       if (vf::deadline_hit()) break;
    }
    // ---- (c) program names
-   std::vector<std::string> names; const char na[] = {'a', '/', '.'};
+   std::vector<std::string> names{""}; const char na[] = {'a', '/', '.'};       // argv[0] == "" is legal
    for (char c0 : na) { names.push_back(std::string(1, c0)); for (char c1 : na) { names.push_back(std::string{c0, c1}); for (char c2 : na) names.push_back(std::string{c0, c1, c2}); } }
    for (size_t n : {size_t(7), size_t(8), size_t(15), size_t(16), size_t(17), size_t(23), size_t(24), size_t(25), size_t(255), size_t(256)}) { names.push_back(std::string(n, 'p')); names.push_back("/" + std::string(n - 1, 'q')); names.push_back(std::string(n - 2, 'd') + "/p"); }
    for (auto& nm : names) {
@@ -145,7 +145,7 @@ int main(int argc, char** argv) {
       for (int m = 0; m < NMODES; ++m) { eval_line(m, {}, nm, "progname"); eval_line(m, {"-a"}, nm, "progname"); eval_line(m, {"-v", "5", "x"}, nm, "progname"); }
       vf::nontrivial_by_construction();
    }
-   vf::sample("program names: '" + names[5] + "', '" + names[20] + "', 255 x 'p' ... with empty line, '-a', '-v 5 x' in 8 source modes");
+   vf::sample("program names: '" + names[6] + "', '" + names[21] + "', 255 x 'p' ... with empty line, '-a', '-v 5 x' in 8 source modes");
    vf::count("evaluations", g_evals); vf::count("transitions", g_evals); vf::count("states", g_evals);
    vf::count("returned_normally", g_returned); vf::count("threw_std_exception", g_threw);
    for (auto& t : g_exc_types) vf::outcome("exception type " + t);
